@@ -119,16 +119,22 @@ def _check_body(ctx, res) -> None:
     orders = {}
     for mname in ("do", "undo"):
         m = comp.methods[mname]
+        # (`changes = self.changes` ... `for change in changes`: a local bound once is read through; `enumerate(...)` is transparent)
+        def main_iter(n):
+            it_ = common._subst_single_locals(m.node, n.iter)
+            if isinstance(it_, ast.Call) and call_name(it_) == "enumerate" and len(it_.args) == 1:
+                it_ = it_.args[0]
+            return it_
         loops = [n for n in walk_local(m.node) if isinstance(n, ast.For)
-                 and any(is_self_attr(x) for x in ast.walk(n.iter))
+                 and any(is_self_attr(x) for x in ast.walk(main_iter(n)))
                  and not any(isinstance(t, ast.Try) and any(n is x for h in t.handlers for s in h.body for x in ast.walk(s))
                              for t in walk_local(m.node))]
         if len(loops) != 1:
             raise AnalysisError(f"anchor={comp.name}.{mname}: main loop over sub-changes not unique")
         lp = loops[0]
-        attr = next(x.attr for x in ast.walk(lp.iter) if is_self_attr(x))
+        attr = next(x.attr for x in ast.walk(main_iter(lp)) if is_self_attr(x))
         # rewrite self.attr -> name for the shared discipline helper
-        it = ast.parse(ast.unparse(lp.iter).replace(f"self.{attr}", "L"), mode="eval").body
+        it = ast.parse(ast.unparse(main_iter(lp)).replace(f"self.{attr}", "L"), mode="eval").body
         orders[mname] = (_iter_discipline(ast.For(target=lp.target, iter=it, body=[], orelse=[]), "L"), attr, lp)
     d, u = orders["do"], orders["undo"]
     if d[0] is None or u[0] is None:
